@@ -35,7 +35,7 @@ INSERT = ["<x y z>", "<", "</x", "(v", "<a", "a>b <", "%foo x", "%define", "%def
           "% define a b", "k $nope", "k ${x", "k $", "%define d $", "%define d ${nope}",
           "nosuchkey v", "nosuchkey", "1x v", "<nosuchtype/>", "<nosuchtype n>", "</nosuchtype>",
           "%include nosuchfile.conf", "%import no.such.package", "%define zd $nope", "%define ZD ${x",
-          "%define Zd a$"]
+          "%define Zd a$", "k $(x", "k $( HOME)", "k a$(/etc", "%define zd $(", "%include $(x", "k $(ZCV_NO_SUCH_ENV_VARIABLE)"]
 BADVALUES = ["abc", "65536", "-1", "5tb", "5x", "1a", "a b", "maybe", "host:99999", "1.2.3", ""]
 
 
@@ -268,7 +268,7 @@ def shards(tier, seed):
     return specs
 
 
-EVERY = ["<x y z>", "%foo x", "k ${x", "nosuchkey-zz v", "<nosuchtype/>", "</nosuchtype>", "%define 1x v"]
+EVERY = ["<x y z>", "%foo x", "k ${x", "nosuchkey-zz v", "<nosuchtype/>", "</nosuchtype>", "%define 1x v", "k $(x"]
 
 
 def run_every_position(spec, res, counters):
@@ -332,6 +332,13 @@ def run_shard(spec):
                 kind, mutated = inject(rng, text)
                 if kind == "none":
                     continue
+                if rng.random() < 0.06:
+                    # a very long line somewhere: it is still one line
+                    ls = split_lines(mutated)
+                    j = rng.randrange(len(ls) + 1)
+                    ls.insert(j, rng.choice(["# " + "x" * 20000, "#" + " y" * 35000, "   " * 3000 + "# z"]))
+                    mutated = join(ls)
+                    counters["very-long-line"] += 1
                 if rng.random() < 0.6:
                     resources, cuts = gen.cut_includes(rng, mutated, MAIN)
                 else:
